@@ -191,4 +191,109 @@ def takeChunksVectored (b : AdvBuf) (limit dstLen : Nat) : Res (List Bs) :=
       let c ← chunk b
       pure [c.take (min c.length limit)]
 
+/-! ### round 8: the consumers that wrap the adversary in `Take` / `Chain` / feed it to `Limit` -/
+
+/-- `Take<&mut Adv>::remaining`: `min(inner.remaining(), limit)` -/
+def takeRemaining (b : AdvBuf) (limit : Nat) : Res Nat := do
+  let r ← remaining b
+  pure (min r limit)
+
+/-- `Take::chunk`: `&bytes[..min(bytes.len(), limit)]` (a safe slice) -/
+def takeChunk (b : AdvBuf) (limit : Nat) : Res Bs := do
+  let c ← chunk b
+  sliceTo c (min c.length limit)
+
+/-- `Take::advance`: `assert!(cnt <= limit); inner.advance(cnt); limit -= cnt` -/
+def takeAdvance (b : AdvBuf) (limit cnt : Nat) : Res (AdvBuf × Nat) :=
+  if cnt > limit then .panic
+  else do
+    let b' ← advance b cnt
+    pure (b', limit - cnt)
+
+/-- capacity after `reserve(n)` on a growing destination (only `cap' - len ≥ n` matters for safety) -/
+def reserveCap (len cap n : Nat) : Nat := if cap - len ≥ n then cap else max (2 * cap) (len + n)
+
+/-- `BytesMut::put(src.take(limit))`: every chunk goes through `extend_from_slice` -/
+def putGrowTakeLoop : Nat → AdvBuf → Nat → Nat → Nat → Res (Nat × Nat)
+  | 0, _, _, _, _ => .hang
+  | fuel + 1, b, limit, len, cap => do
+    let r ← takeRemaining b limit
+    if r = 0 then pure (len, cap)
+    else do
+      let s ← takeChunk b limit
+      let cap' := reserveCap len cap s.length
+      unsafeWrite (cap' - len) s
+      let (b', limit') ← takeAdvance b limit s.length
+      putGrowTakeLoop fuel b' limit' (len + s.length) cap'
+
+/-- default `Buf::copy_to_bytes(len)`: `BytesMut::with_capacity(len)`, `put(self.take(len))`, `freeze`; the result's length -/
+def defaultCopyToBytes (fuel : Nat) (b : AdvBuf) (len : Nat) : Res Nat := do
+  let r ← remaining b
+  if r < len then .panic
+  else do
+    let (n, _) ← putGrowTakeLoop fuel b len 0 len
+    pure n
+
+/-- `Take::copy_to_bytes(len)` over the adversary (limit `lim`): `assert!(len <= self.remaining())`, then the inner one -/
+def takeCopyToBytes (fuel : Nat) (b : AdvBuf) (lim len : Nat) : Res Nat := do
+  let r ← takeRemaining b lim
+  if len > r then .panic else defaultCopyToBytes fuel b len
+
+/-- `Chain<Adv, &[u8]>::copy_to_bytes(len)`, the second half an honest slice of `bLen` bytes -/
+def chainCopyToBytes (fuel : Nat) (b : AdvBuf) (bLen len : Nat) : Res Nat := do
+  let aRem ← remaining b
+  if aRem ≥ len then defaultCopyToBytes fuel b len
+  else if aRem = 0 then (if bLen < len then .panic else pure len)
+  else if len - aRem > bLen then .panic
+  else do
+    let (n, cap) ← putGrowLoop fuel b 0 len          -- ret.put(&mut self.a)
+    let k := len - aRem                               -- ret.put((&mut self.b).take(len - a_rem)): one honest chunk
+    unsafeWrite (reserveCap n cap k - n) (List.replicate k 0)
+    pure (n + k)
+
+/-- `Chain<Adv, &[u8]>::chunks_vectored(dst)`, `dst.len() ≥ 2`, the adversary with the default `chunks_vectored`:
+how many slices are filled (all through safe `dst[..]` indexing) -/
+def chainChunksVectored (b : AdvBuf) (bLen : Nat) : Res Nat := do
+  let r ← remaining b
+  if r = 0 then pure (if bLen = 0 then 0 else 1)      -- nothing from a; a_len = 0 = a.remaining()
+  else do
+    let c ← chunk b
+    pure (if c.length = r then (if bLen = 0 then 1 else 2) else 1)
+
+/-- `Chain<&[u8], Adv>::get_u64()` with a first half of `pre.length < 8` bytes: the fast path's `chunk().get(..8)` sees
+the short first half (`None`), so the bytes come through `copy_to_slice` over the chain -/
+def chainGetFixed (fuel : Nat) (pre : Bs) (b : AdvBuf) (size : Nat) : Res Bs := do
+  let r ← remaining b
+  if pre.length + r < size then .panic
+  else do
+    let (bs, _) ← tryCopyLoop fuel b (size - pre.length) pre
+    pure bs
+
+/-- capacity after `BytesMut::chunk_mut`: `reserve(64)` when full -/
+def chunkMutCap (len cap : Nat) : Nat := if cap = len then max (2 * cap) (len + 64) else cap
+
+/-- default `BufMut::put(src)` into `Limit<&mut BytesMut>`: state is the BytesMut's `(len, cap)` and the limit.
+`chunk_mut` reserves 64 when full; the copy `d[..cnt].copy_from_slice(&s[..cnt])` is safe code; `advance_mut` re-checks
+`cnt ≤ limit` (Limit) and `cnt ≤ cap - len` (BytesMut) -/
+def putLimitLoop : Nat → AdvBuf → Nat → Nat → Nat → Res (Nat × Nat × Nat)
+  | 0, _, _, _, _ => .hang
+  | fuel + 1, b, limit, len, cap => do
+    let r ← remaining b
+    if r = 0 then pure (len, cap, limit)
+    else do
+      let s ← chunk b
+      let cap' := chunkMutCap len cap
+      let d := min (cap' - len) limit
+      let cnt := min s.length d
+      let _ ← sliceTo s cnt
+      if cnt > limit then .panic                       -- Limit::advance_mut's assert
+      else if cnt > cap' - len then .panic             -- BytesMut::advance_mut's check
+      else do
+        let b' ← advance b cnt
+        putLimitLoop fuel b' (limit - cnt) (len + cnt) cap'
+
+def putLimit (fuel : Nat) (b : AdvBuf) (limit len cap : Nat) : Res (Nat × Nat × Nat) := do
+  let r ← remaining b
+  if limit < r then .panic else putLimitLoop fuel b limit len cap
+
 end BytesVerif.Adv
